@@ -248,6 +248,25 @@ def run_chunks(case):
     if r.viol is not None:
       return r
     res = r
+  # the user may choose the default strategy (chunks.default = chunks.array, as the docstring
+  # suggests): every strategy still gives the same bytes for every byte order
+  if rot == 0 and src == "list":
+    saved = vars(chunks).get("default", None)
+    try:
+      for dflt in ("array", "struct"):
+        chunks.default = chunks[dflt]
+        for order in (">", None, "<"):
+          r = one_chunks_call(strat, dfmt, order, size, n, rot, src)
+          if r.viol is not None:
+            r.viol["what"] += " (with chunks.default = chunks.%s)" % dflt
+            r.viol["key"] += ":user-default"
+            return r
+    finally:
+      if saved is None:
+        try: del chunks.default
+        except Exception: pass
+      else:
+        chunks.default = saved
   return res
 
 
